@@ -252,6 +252,8 @@ def contains(eng, container: V, item: V, st):
         if isinstance(obj, (dict, set, frozenset, tuple, list)):
             keys = list(obj.keys()) if isinstance(obj, dict) else list(obj)
             return Or(*[eng.eq(item, const_to_v(k)) for k in keys])
+    if isinstance(container, NoneV) and getattr(eng, "spec_mode", False):
+        return z3.BoolVal(False)  # contract clauses are total: membership in None is false
     raise Unsupported(f"`in` on {type(container).__name__}")
 
 
@@ -478,6 +480,11 @@ def setitem(eng, st, recv, idx, val, node):
             if eng.feasible(s_new):
                 keys = z3.Concat(recv.keys, z3.Unit(k))
                 s_new = s_new.assume(z3.Length(keys) == z3.Length(recv.keys) + 1)
+                # membership after insertion (a consequence of seq.contains over concat that the
+                # solvers do not derive under quantifiers by themselves)
+                xq = z3.FreshConst(recv.kk.sort(), "kq")
+                s_new = s_new.assume(z3.ForAll([xq], z3.Contains(keys, z3.Unit(xq))
+                                               == z3.Or(z3.Contains(recv.keys, z3.Unit(xq)), xq == k)))
                 outs.append((s_new, DictV(recv.kk, recv.vk, keys, vals2), NONE))
         return outs
     if isinstance(recv, LitDict):
@@ -702,7 +709,16 @@ def str_method(eng, st, s: StrV, meth, pos, kw, node):
         f = z3.Function(f"py_{meth}", z3.StringSort(), z3.StringSort())
         eng.trusted_used.add(f"str.{meth} (uninterpreted, length-preserving axiom)")
         r = f(t)
-        return [(st.assume(z3.Length(r) == z3.Length(t)), StrV(r))]
+        # global axiom (not a path assumption: inside quantified contract clauses a path
+        # assumption would become a guard that the solver may falsify)
+        key = f"ax_py_{meth}"
+        if not getattr(eng, "_global_ax", None):
+            eng._global_ax = set()
+        if key not in eng._global_ax:
+            eng._global_ax.add(key)
+            x = z3.String(f"ax_{meth}!s")
+            eng.axioms.append(z3.ForAll([x], z3.Length(f(x)) == z3.Length(x), patterns=[f(x)]))
+        return [(st, StrV(r))]
     if meth == "replace" and len(pos) == 2 and all(isinstance(p, StrV) for p in pos):
         eng.trusted_used.add("str.replace = SMT-LIB str.replace_all")
         return [(st, StrV(z3.ReplaceAll(t, pos[0].t, pos[1].t) if hasattr(z3, "ReplaceAll") else _replace_all(t, pos[0].t, pos[1].t)))]
